@@ -124,7 +124,11 @@ static void life(const Cycle& c, bool enabled, bool solo, Acquire acquire, Acqui
             // a handle that holds another wrapper's lock is assigned over: its own lock is released, ours is kept
             H g = acquire_other();
             size_t with_other = vrf::held_count();
+            const bool source_held = (held_with == before + 1);  // the assigned-from handle is non-null exactly when it holds our lock
             g = std::move(h);
+            // the target now stands for what the source stood for - also when the source was a failed attempt (null)
+            if (enabled && static_cast<bool>(g) != source_held)
+                fail("oracle:move_assigned_handle_state_wrong", c, source_held ? "\"null although it took over a held lock\"" : "\"non-null although it was assigned from a null handle\"");
             size_t expect = held_with;  // other released (if it was held), ours transferred
             if (vrf::held_count() != expect) fail("oracle:move_assignment_lock_count_wrong", c, "\"held " + std::to_string(vrf::held_count()) + " expected " + std::to_string(expect) + " (before assign " + std::to_string(with_other) + ")\"");
             { H dead(std::move(h)); }
